@@ -796,14 +796,18 @@ func (e *specEnv) eval(x *SX) (Val, types.Type, error) {
 			return v, e.gtOf(x.Name, v), nil
 		}
 		if v, ok := e.vars[x.Name]; ok {
-			if _, cell := e.vars["&"+x.Name]; !cell {
+			cv, cell := e.vars["&"+x.Name]
+			if cell && cv.Place == nil && e.gtOf("&"+x.Name, cv) == nil {
+				cell = false
+			}
+			if !cell {
 				if v.Place != nil && v.T == "" {
 					return Val{}, nil, fmt.Errorf("%s is a place", x.Name)
 				}
 				return v, e.gtOf(x.Name, v), nil
 			}
 		}
-		if v, ok := e.vars["&"+x.Name]; ok {
+		if v, ok := e.vars["&"+x.Name]; ok && (v.Place != nil || e.gtOf("&"+x.Name, v) != nil) {
 			// address-taken local: load its current content
 			pl := c.placeOfPointer(v, e.gtOf("&"+x.Name, v))
 			return Val{T: c.loadPlaceIn(e.st, pl), S: pl.Sort}, pl.GoType, nil
@@ -1323,12 +1327,41 @@ func (e *specEnv) evalCall(x *SX) (Val, types.Type, error) {
 			return Val{}, nil, err
 		}
 		return Val{T: e.pathMatch(p, pat), S: SBool}, nil, nil
+	case "closurefn", "closurerecv":
+		a, _, err := arg(0)
+		if err != nil {
+			return Val{}, nil, err
+		}
+		c.closureFns()
+		f := map[string]string{"closurefn": "clofn", "closurerecv": "clob"}[x.Name]
+		return Val{T: fmt.Sprintf("(%s %s)", f, a.T), S: SInt}, nil, nil
+	case "bound":
+		// bound("(*T).Method", recv): the method value recv.Method
+		if len(x.Args) != 2 || x.Args[0].Op != "lit-str" {
+			return Val{}, nil, fmt.Errorf("bound(\"(*T).M\", recv) expects a string literal and a receiver")
+		}
+		name := x.Args[0].Name
+		k := e.c.Name
+		if e.callee != nil {
+			k = fnKey(e.callee)
+		}
+		name = strings.SplitN(k, ".", 2)[0] + "." + name
+		f := c.E.byKey[name]
+		if f == nil {
+			return Val{}, nil, fmt.Errorf("bound: no method %s", name)
+		}
+		rv, _, err := arg(1)
+		if err != nil {
+			return Val{}, nil, err
+		}
+		c.closureFns()
+		return Val{T: fmt.Sprintf("(mkclo %d %s)", c.E.fnID(f), rv.T), S: SInt}, nil, nil
 	case "fn":
 		if len(x.Args) != 1 || x.Args[0].Op != "lit-str" {
 			return Val{}, nil, fmt.Errorf("fn(\"name\") expects a string literal")
 		}
 		name := x.Args[0].Name
-		if !strings.Contains(name, ".") {
+		if c.E.byKey[name] == nil {
 			k := e.c.Name
 			if e.callee != nil {
 				k = fnKey(e.callee)
